@@ -18,6 +18,12 @@ def load_table(name):
         return json.load(fh)
 
 
+def _range_family(detail):
+    import re
+    m = re.match(r"^(index:\[[^\]]*\])\[std::ops::Range(From|To|Inclusive|ToInclusive)?<usize>\]$", detail)
+    return m.group(1) + "[range]" if m else None
+
+
 class Pool:
     """Reviewed exceptions, keyed "<fn path> | <detail>" with an exact count per build configuration.
 
@@ -65,6 +71,14 @@ class Pool:
                 if self.left[k] > 0 and k.split(" | ", 1)[1] == detail:
                     donor = k
                     break
+            if donor is None:
+                # the same slice expression re-spelled inside its function: `s[a..b]` as `s[a..]` / `&rest[..n]`
+                fam = _range_family(detail)
+                for k in sorted(self.left):
+                    kf, kd = k.split(" | ", 1)
+                    if self.left[k] > 0 and kf == fnpath and fam is not None and _range_family(kd) == fam:
+                        donor = k
+                        break
             if donor is None:
                 on_violation()
             else:
